@@ -209,7 +209,33 @@ func c08sequences(c *Ctx) error {
 		e.mu.Lock()
 		sent := append([]string{}, e.sent...)
 		e.mu.Unlock()
-		c.Eval(1)
+		// the same deliveries on the model: the facts sent for the plain and for the suffrage-confirm stage point
+		{
+			var ps, ss []string
+			for _, x := range sent {
+				i := strings.Index(x, "=")
+				if strings.HasSuffix(x[:i], ".1") {
+					ss = append(ss, x[i+1:])
+				} else {
+					ps = append(ps, x[i+1:])
+				}
+			}
+			j := func(l []string) string {
+				if len(l) == 0 {
+					return "-"
+				}
+				return strings.Join(l, ",")
+			}
+			ok := "-"
+			if okWrites >= 0 {
+				ok = fmt.Sprint(okWrites)
+			}
+			var ds []string
+			for _, x := range desc {
+				ds = append(ds, strings.Replace(x, "sc", "s", 1))
+			}
+			c.Case(fmt.Sprintf("seq %s ; %s", ok, strings.Join(ds, " ")), fmt.Sprintf("plain=%s sc=%s", j(ps), j(ss)))
+		}
 		pooldesc := "healthy pool"
 		if okWrites >= 0 {
 			pooldesc = fmt.Sprintf("pool whose writes fail after %d", okWrites)
